@@ -23,6 +23,10 @@ def main(tier_):
     build_s = build_harness()
     design = run_tlc("ProcRetry.tla", "MC_C08.cfg", workers=2, timeout=300)
     variant = run_tlc("ProcRetry.tla", "MC_C08_recursive.cfg", workers=2, timeout=300)
+    # two more mechanism variants, both seeded changes: a handle that remembers a failed retry (C08c), and an "unmasked"
+    # handle cloned from the host mount (C08d) -- each must violate VisibleToPrivilegedIsFound
+    var_remember = run_tlc("ProcRetry.tla", "MC_C08_remember.cfg", workers=2, timeout=300)
+    var_opentree = run_tlc("ProcRetry.tla", "MC_C08_opentree.cfg", workers=2, timeout=300)
     cases = []
     for hname, opts in HOSTS.items():
         for priv in (True, False):
@@ -117,7 +121,7 @@ def main(tier_):
     cov = dict(states=design["distinct"] + tr["tlc"]["distinct"], transitions=design["states"] + len(recs), traces_validated_against_impl=len(recs), samples=samples, evaluations=len(cases),
                distinct_nontrivial=len([c for c in cases if not c["meta"]["priv"] or c["meta"]["host"] != "default"]),
                rule="case = (host /proc option, privilege, constructor, base, path kind, operation), traced; non-trivial = unprivileged caller or non-default /proc options",
-               exhaustive=tier_ != "quick", design_violated=design["violated"], recursive_variant_violated=variant["violated"], skipped=stats["skipped"],
+               exhaustive=tier_ != "quick", design_violated=design["violated"], recursive_variant_violated=variant["violated"], remember_enoent_variant_violated=var_remember["violated"], unmasked_via_open_tree_variant_violated=var_opentree["violated"], skipped=stats["skipped"],
                outcomes={k: n for k, n in stats.items() if k.startswith("outcome_")}, max_handles=max([r["handles"] for r in recs] or [0]), max_peak=max([r["peak"] for r in recs] or [0]),
                max_nsys=max([r["nsys"] for r in recs] or [0]), build_s=round(build_s, 1))
     write_evidence("C08", tier_, "model_checking", cov, ASSUME, time.time() - t0, len(v.violations))
